@@ -24,5 +24,34 @@ def structural(ctx):
     return [("registry", False, "functions registered by init() differ from Model/Funcs.v registry: " + txt[-300:].replace("\n", " "))]
 
 
+def hash_history(ctx):
+    """HASH digests from two fresh processes — one that ran ENCODE/DECODE first, one that did not — must be identical:
+    the model takes the serialisation behind HASH as a function of the value alone."""
+    import json, os
+    res = {"name": "hash-history-independence", "ok": False, "violations": [], "coverage": {}}
+    d = os.path.join(ctx["rundir"], "c18hash")
+    got = {}
+    for order in ("hash-first", "encode-first"):
+        rc, out = ctx["run"]([ctx["exe"], "aux", "c18hash", "-tier", order, "-out", d], cwd=ctx["rundir"], env=ctx["goenv"], timeout=300)
+        p = os.path.join(d, "c18hash-%s.json" % order)
+        if rc != 0 or not os.path.exists(p):
+            res["detail"] = "driver failed: " + out[-300:]
+            res["broken"] = "stage:hash-history-independence did not complete: " + out[-200:].replace("\n", " ")
+            return res
+        got[order] = json.load(open(p))
+    diff = sorted(k for k in got["hash-first"] if got["hash-first"][k] != got["encode-first"].get(k))
+    res["coverage"] = {"cases": len(got["hash-first"]), "rule": "4 algorithms x 5 value kinds + a literal, HASH-first process vs ENCODE-first process"}
+    res["ok"] = not diff
+    res["detail"] = "%d of %d digests depend on whether ENCODE ran earlier in the process" % (len(diff), len(got["hash-first"]))
+    if diff:
+        p = os.path.join(ctx["root"], "replays", "C18-%s-%d-hash-history.json" % (ctx["tier"], ctx["seed"]))
+        json.dump({"property": "C18", "kind": "HASH is not a function of its argument: the digest depends on what ran earlier in the process",
+                   "differing": {k: {"hash_first": got["hash-first"][k], "encode_first": got["encode-first"].get(k)} for k in diff[:6]},
+                   "replay": "vharness aux c18hash -tier hash-first|encode-first -out <dir> ; compare the two files"}, open(p, "w"), indent=1)
+        res["violations"].append((p, ""))
+    return res
+
+
 def install(CONFIG, EXTRA_TB, ASSUME):
+    CONFIG.setdefault("C18", {}).setdefault("stages", []).append(hash_history)
     CONFIG.setdefault("C18", {})["structural"] = structural
